@@ -155,6 +155,8 @@ Inductive wop :=
 | WSend (a b : nat) (order : list string) (max : N)
 | WDeliver (i : nat) (keep : bool) (max : N) (nows : amap Z) (order : list string)   (* keep = duplicate *)
 | WDrop (i : nat)
+| WNop
+| WInject (n : nat) (b : pbody) (max : N) (nows : amap Z) (order : list string)   (* a packet from outside *)
 | WLiveness (n : nat) (suspects : list string) (nows : amap Z)
 | WExpire (n : nat) (t : Z)
 | WJoin (a b : nat) (nows_a nows_b : amap Z)
@@ -212,6 +214,16 @@ Definition wstep (w : world) (o : wop) : step_out :=
           end
       end
   | WDrop i => plain (with_nodes w (w_nodes w) (remove_nth i (w_net w)))
+  | WNop => plain w
+  | WInject n b max nows order =>
+      match nth_error (w_nodes w) n with
+      | None => plain w
+      | Some c =>
+          let hd := handle_packet c b max nows order in
+          {| so_world := with_nodes w (set_nth n (h_state hd) (w_nodes w)) (w_net w);
+             so_events := tag n (h_events hd); so_sent := h_out hd; so_err := h_err hd;
+             so_oracle_ok := h_oracle_ok hd; so_reports := h_reports hd |}
+      end
   | WLiveness n suspects nows =>
       match nth_error (w_nodes w) n with
       | None => plain w
